@@ -336,6 +336,9 @@ def trCore (withObj : Bool) : P String := do
       if ev == 3 then mT := savedM
       prevT := outT; prev := out
       nBook := nBook + 1
+      -- the window re-synchronisation of the pure trajectory must not be skipped when its boundary falls on a bookkeeping call
+      if (k + 1) % window == 0 then
+        mT := outT; mQ := out
       continue
     let s ← P.nat; let a ← P.nat; let s1 ← P.nat; let a1 ← P.nat; let r ← P.q
     if r < rlo then rlo := r
@@ -448,10 +451,12 @@ def ps : P String := do
   let R3 ← P.rep P.q (S * A * S)
   -- public calls before the drain: `1 s a` = stepUpdateQ(s,a), `2 table` = setQFunction(table) (replaces the table only: the value
   -- function and the queue stay as they are)
+  -- `3 T[S*A*S] R[S×A]` = the model the planner refers to was re-synced (MaximumLikelihoodModel over growing experience)
   let ops ← P.list (do
     let c ← P.nat
-    if c == 1 then (do let s ← P.nat; let a ← P.nat; pure (some (s, a), ([] : Rows)))
-    else (do let t ← tab S A; pure (none, t)))
+    if c == 1 then (do let s ← P.nat; let a ← P.nat; pure (some (s, a), ([] : Rows), ([] : List Rat)))
+    else if c == 2 then (do let t ← tab S A; pure (none, t, []))
+    else (do let t' ← P.rep P.q (S * A * S); let r' ← tab S A; pure (none, r', t')))
   P.bar
   let implQ ← tab S A
   let implV ← P.rep P.q S
@@ -459,21 +464,27 @@ def ps : P String := do
   let viQ ← tab S A
   P.eof
   if A == 0 || S == 0 then P.fail
-  let m0 := mkMDP S A γ T R                  -- the MDP the learner was given (L3 is evaluated against it)
-  let stepF := psStepOf kind m0 (fun s a s1 => R3.getD ((s * A + a) * S + s1) 0) θ
+  -- the MDP in force at the end (L3 is evaluated against it): the last re-synced one, else the one given at construction
+  let lastModel := ops.foldl (fun (acc : List Rat × Rows) o => if o.2.2.isEmpty then acc else (o.2.2, o.2.1)) (T, R)
+  let m0 := mkMDP S A γ lastModel.1 lastModel.2
+  let stepOf := fun (m : MDP) => psStepOf kind m (fun s a s1 => R3.getD ((s * A + a) * S + s1) 0) θ
+  let stepF := stepOf m0
   let comp := if kind == "generic" then "PrioritizedSweeping.generic" else "PrioritizedSweeping"
   let v : Verdict := { tag := s!"ps-{kind}" }
   -- model: same explicit steps, then pop max-priority until empty (fuel bounds the run)
-  let st0 := ops.foldl (fun st (o : Option (Nat × Nat) × Rows) =>
+  let st0 := (ops.foldl (fun (ms : MDP × PS) (o : Option (Nat × Nat) × Rows × List Rat) =>
       match o.1 with
       | some p =>
-        let st' := stepF st p.1 p.2
-        { st' with q := ofRows (toRows S A st'.q), v := ofVec (toVec S st'.v), done := [] }
-      | none => { st with q := ofRows o.2, done := [] }) PS.init
+        let st' := stepOf ms.1 ms.2 p.1 p.2
+        (ms.1, { st' with q := ofRows (toRows S A st'.q), v := ofVec (toVec S st'.v), done := [] })
+      | none =>
+        if o.2.2.isEmpty then (ms.1, { ms.2 with q := ofRows o.2.1, done := [] })
+        else (mkMDP S A γ o.2.2 o.2.1, { ms.2 with done := [] })) (mkMDP S A γ T R, PS.init)).2
   let (stF, left) := psGo stepF S A 200000 st0
   -- the pairs stepped explicitly AFTER the last setQFunction (theorem ps_fixed_point_setq)
   let order := ops.foldl (fun (acc : List (Nat × Nat)) o => match o.1 with | some p => p :: acc | none => []) []
-  let usedSetQ := ops.any (fun o => o.1.isNone)
+  let usedSetQ := ops.any (fun o => o.1.isNone && o.2.2.isEmpty)
+  let usedResync := ops.any (fun o => !o.2.2.isEmpty)
   let covered := (List.range S).all (fun s => (List.range A).all (fun a => order.contains (s, a)))
   let mQ := toRows S A stF.q
   let tolPS : Rat := 1 / 10000000
@@ -491,6 +502,7 @@ def ps : P String := do
       v.failIf (!vOK) s!"{comp} value_not_row_max"
     else { v with tag := v.tag ++ " uncovered" }
   let v := if usedSetQ then { v with tag := v.tag ++ " setq" } else v
+  let v := if usedResync then { v with tag := v.tag ++ " resync" } else v
   return v.render
 
 /-! ### DynaQ batch on a deterministic model -/
